@@ -168,8 +168,12 @@ func evJSON(e tcell.Event) []interface{} {
 
 func drain(s tcell.Screen) []interface{} {
 	out := []interface{}{}
-	for s.HasPendingEvent() {
-		out = append(out, evJSON(s.PollEvent()))
+	for k := 0; k < 64 && s.HasPendingEvent(); k++ {
+		e := s.PollEvent()
+		if e == nil {
+			break
+		}
+		out = append(out, evJSON(e))
 	}
 	return out
 }
@@ -337,7 +341,7 @@ func lifecycle(seq []string) {
 				s.Resume()
 			case "SetSize":
 				// a poller keeps the event queue from filling up
-				for s.HasPendingEvent() {
+				for k := 0; k < 20 && s.HasPendingEvent(); k++ { // bounded: after Fini PollEvent returns nil at once
 					s.PollEvent()
 				}
 				s.SetSize(10+n, 5)
@@ -353,11 +357,14 @@ func lifecycle(seq []string) {
 	for n < len(seq) && wedged == "" {
 		select {
 		case n = <-done:
-		case <-time.After(250 * time.Millisecond):
+		case <-time.After(150 * time.Millisecond):
 			wedged = seq[n]
 		}
 	}
 	emit(ev{"ev": "Lifecycle", "seq": seq, "wedged": wedged, "done": n})
+	if os.Getenv("VH_DEBUG") != "" {
+		println("lifecycle", len(log), wedged, n, time.Now().UnixMilli()%100000)
+	}
 }
 
 func main() {
@@ -373,15 +380,35 @@ func main() {
 			nhist = v
 		}
 	}
+	maxLife := 3
+	if len(os.Args) > 4 {
+		if v, err := strconv.Atoi(os.Args[4]); err == nil {
+			maxLife = v
+		}
+	}
+	phases := "dil"
+	if len(os.Args) > 3 {
+		phases = os.Args[3]
+	}
+	has := func(c byte) bool {
+		for i := 0; i < len(phases); i++ {
+			if phases[i] == c {
+				return true
+			}
+		}
+		return false
+	}
 	rng := rand.New(rand.NewSource(seed))
 	install()
-	for i := 0; i < nhist; i++ {
+	for i := 0; i < nhist && has('d'); i++ {
 		if err := drawHistory(rng, 15+rng.Intn(25)); err != nil {
 			emit(ev{"ev": "Error", "msg": err.Error()})
 		}
 	}
-	if err := inputRun(); err != nil {
-		emit(ev{"ev": "Error", "msg": err.Error()})
+	if has('i') {
+		if err := inputRun(); err != nil {
+			emit(ev{"ev": "Error", "msg": err.Error()})
+		}
 	}
 	emit(ev{"ev": "Reset"})
 	ops := []string{"Suspend", "Resume", "SetSize", "Fini"}
@@ -390,14 +417,16 @@ func main() {
 		if len(prefix) > 0 {
 			lifecycle(append([]string{}, prefix...))
 		}
-		if len(prefix) == 4 {
+		if len(prefix) == maxLife {
 			return
 		}
 		for _, o := range ops {
 			rec(append(append([]string{}, prefix...), o))
 		}
 	}
-	rec(nil)
+	if has('l') {
+		rec(nil)
+	}
 	for _, e := range log {
 		b, _ := json.Marshal(e)
 		fmt.Println(string(b))
